@@ -15,7 +15,7 @@ for t in $targets; do
     race)
       go1.26.8 test -c -race -gcflags=all=-d=checkptr=0 -tags verif -overlay "$W/overlay/overlay.json" -o "$W/bin/world.race.test" ./world ;;
     orch)
-      go1.26.8 build -overlay "$W/overlay/overlay_nort.json" -o "$W/bin/orch" ./cmd/orch ;;
+      go1.26.8 build -tags verif -overlay "$W/overlay/overlay_nort.json" -o "$W/bin/orch" ./cmd/orch ;;
     comp)
       for p in $(ls comp 2>/dev/null); do
         go1.26.8 test -c -tags verif -overlay "$W/overlay/overlay.json" -o "$W/bin/comp-$p.test" "./comp/$p"
